@@ -563,21 +563,24 @@ def main(ctx):
     quick = ctx.tier == "quick"
     ctx.trusted_base += [
         "harness/cmd/c01: generator, recover/watchdog wrapper, canonicalisation of instruction names (loadStack1/loadStash→loadStack …)",
-        "/repo/verif_hooks_c01.go: program dump (reflect over instruction values), in-place tracing wrapper, vm.sp accessor",
+        "/repo/verif_hooks_c01.go: program dump (reflect over instruction values), in-place tracing wrapper, vm.sp accessor, "
+        "capture of eval-compiled code (the hook re-compiles the eval source through Runtime.compile with the engine's flags)",
         "nested JS calls made by built-ins are assumed operand-stack balanced when seen from the calling frame (vm.go call protocol)",
         "inside a variadic call region the abstract height counts each spread argument as one value (virtual height)",
     ]
     ctx.assumptions += [
         "Go runtime, reflect, the Go scheduler (watchdog via Runtime.Interrupt), regexp engines",
         "panics inside native built-ins and the parser are outside every model: searched for, not proved absent",
-        "function-level operand leaks that neither underflow nor disagree at a join are invisible to `verify` (ret resets sp); "
-        "they are covered by emit_height + corr1 for the modelled expression fragment and by the crash search otherwise",
+        "function-level operand leaks on a loop-free path to a ret are invisible to `verify` (ret resets sp); inside the modelled "
+        "expression + statement fragment they are excluded by emitStmt_height / ret_height_exact + corr1, elsewhere they cannot "
+        "crash (operand reads are top-relative and checked, frame and stash slots are checked) but are not proved absent",
+        "the WF invariants of the scope model (Scope.lean) are transcribed from compiler.go, not derived from a model of the resolver",
     ]
     regen_ok = ctx.regen()
     # theorems + model driver first; the Tie theorems separately, so that a tie broken by a change in /repo does not take
     # the model driver (needed by the correspondences and by the search for a failing input) down with it
     lean_ok, errs = ctx.lake_build(["GojaModel.C01.Props", "model_c01"])
-    names = ctx.audit("GojaModel.C01.Props", expect_min=25) if lean_ok else []
+    names = ctx.audit("GojaModel.C01.Props", expect_min=29) if lean_ok else []
     tie_ok, terrs = ctx.lake_build(["GojaModel.C01.Tie"])
     if tie_ok:
         for t in ["modelOps_agree", "tie_new", "tie_rdupN", "tie_dupLast", "tie_concatStrings", "new_instance", "jumps_agree",
@@ -988,7 +991,8 @@ DYN_OBS = {"_pushSpread", "enterFunc", "enterFunc1", "enterFuncStashless", "ente
            "_superCallVariadic", "superCall", "_new", "_ret", "cret", "_throw", "leaveTry", "leaveFinally", "bindGlobal"}
 
 RULE = ("cases = corpus files + corr1 expressions (random ASTs of the modelled fragment, depth 1-4, contexts function/global/"
-        "sloppy named function expression × strict/sloppy × putOnStack) + classifier payload kinds (exhaustive) + search programs "
+        "sloppy named function expression × strict/sloppy × putOnStack) + corr1 statements (random statements of the modelled "
+        "fragment, depth 0-3, function body / named function expression / program body with needResult) + classifier payload kinds (exhaustive) + search programs "
         "(62% grammar-generated over strict/sloppy × global/function/eval placement, 6% deep nesting 20-200, 22% token mutations, "
         "10% raw bytes; ≤ 64 KiB); distinct non-trivial = distinct canonical bytecode per corr1 case + distinct compiled unit accepted "
         "by the verifier + distinct (instruction, Δpc, Δsp) observation confirmed against the table")
